@@ -29,6 +29,10 @@ func c09OptionSets(withContinue bool) []h.Opts {
 			}
 		}
 	}
+	if withContinue {
+		// the reporting path (Verbose) must not crash either
+		out = append(out, h.Opts{Verbose: true}, h.Opts{Minimal: true, RemoveUnused: true, Verbose: true})
+	}
 	return out
 }
 
